@@ -1,12 +1,1234 @@
-//! C18 — not implemented yet.
+//! C18 — EVM totality and read-only mode. DESIGN §3 C18.
+//!
+//! Enumeration (no BFS). Totality: byte strings as run-time and init code, every opcode at
+//! boundary stack heights, truncated PUSHn, jumps to every offset of codes with 0x5b inside
+//! push data, memory instructions at the 32-bit boundary. Oracle for every message: it ENDS
+//! (hook H1 turns an endless loop into a distinguished failure), nothing panicked anywhere in
+//! the invocation tree, no invocation ends with a crash-like exit code, and where the
+//! property promises a rejection (stack beyond 1024, underflow, undefined opcode, memory beyond
+//! 2^32, jump into push data) the message fails. Read-only: call-tree scripts in which a
+//! state-changing instruction sits beneath a STATICCALL; oracle: actor table, balances and
+//! events unchanged, the frame that attempted the change observed as failed.
+use crate::evmkit::{self, Asm, Deployed, World, classify, op};
+use crate::refevm::{self, Account, Fail, Limits, Outcome, Verdict, Word, max_word, two_pow, w};
+use fvm_shared::econ::TokenAmount;
+use fvm_shared::error::ExitCode;
+use mcvm::Inv;
+use mcx::{PathStep, ViolationReport};
+use num_traits::Zero;
+use serde::{Deserialize, Serialize};
+use serde_json::{Value, json};
+use std::collections::BTreeMap;
+use std::sync::atomic::{AtomicBool, AtomicUsize, Ordering};
+use std::time::Instant;
 
-pub fn run(_tier: &str) -> ! {
-    eprintln!("C18: check not implemented");
-    std::process::exit(2)
+// ------------------------------------------------------------------------------ cases
+
+#[derive(Clone, Debug, Serialize, Deserialize, PartialEq, Eq)]
+pub enum Kind {
+    /// `code` is deployed as run-time code, then called with every call data in turn.
+    Runtime,
+    /// `code` is the init code given to `EAM.CreateExternal`; the result is then called.
+    Init,
+}
+
+#[derive(Clone, Debug, Serialize, Deserialize)]
+pub struct Tc {
+    pub group: String,
+    pub kind: Kind,
+    #[serde(with = "hexbytes")]
+    pub code: Vec<u8>,
+    pub calls: Vec<HexBytes>,
+    /// The property promises that the (last) message fails, for this reason.
+    pub must_fail: Option<String>,
+    /// Compare the outcome of every message with refevm whenever refevm defines it.
+    pub match_ref: bool,
+    /// Allocates close to 4 GiB of EVM memory: run under the global "huge" semaphore.
+    pub huge: bool,
+    pub desc: String,
+}
+
+#[derive(Clone, Debug, Serialize, Deserialize)]
+pub struct HexBytes(#[serde(with = "hexbytes")] pub Vec<u8>);
+
+mod hexbytes {
+    use serde::{Deserialize, Deserializer, Serializer};
+    pub fn serialize<S: Serializer>(b: &Vec<u8>, s: S) -> Result<S::Ok, S::Error> {
+        s.serialize_str(&hex::encode(b))
+    }
+    pub fn deserialize<'de, D: Deserializer<'de>>(d: D) -> Result<Vec<u8>, D::Error> {
+        let s = String::deserialize(d)?;
+        hex::decode(s).map_err(serde::de::Error::custom)
+    }
+}
+
+#[derive(Clone, Debug, Serialize, Deserialize)]
+pub enum Case {
+    Total(Tc),
+    ReadOnly(Script),
+}
+
+#[derive(Default)]
+pub struct Verdicts {
+    pub violation: Option<String>,
+    pub nontrivial: bool,
+    pub messages: u64,
+    /// exit code (top level) -> count
+    pub codes: Vec<u32>,
+    pub note: Option<String>,
+}
+
+
+
+fn crash_like(i: &Inv) -> bool {
+    let c = i.code;
+    if c == ExitCode::SYS_ASSERTION_FAILED && i.msg.starts_with("send syscall error") {
+        // mcvm records a failed send *syscall* (receiver not found, insufficient funds, ...) as
+        // a pseudo-invocation with this code; the callee never ran.
+        return false;
+    }
+    c == ExitCode::USR_ASSERTION_FAILED
+        || c == ExitCode::SYS_ASSERTION_FAILED
+        || c == ExitCode::USR_ILLEGAL_STATE
+        || c == ExitCode::USR_SERIALIZATION
+        || c == ExitCode::SYS_MISSING_RETURN
+        || c == ExitCode::SYS_ILLEGAL_INSTRUCTION
+        || c == ExitCode::SYS_ILLEGAL_EXIT_CODE
+}
+
+/// The totality oracle on one top-level message.
+fn total(inv: &Inv, what: &str) -> Result<(), String> {
+    if inv.any_panicked() {
+        return Err(format!("{what}: an actor panicked:\n{}", inv.tree()));
+    }
+    for i in inv.flat() {
+        if crash_like(i) {
+            return Err(format!("{what}: invocation ended with crash-like exit code {}:\n{}", i.code.value(), inv.tree()));
+        }
+    }
+    Ok(())
+}
+
+pub fn run_total(world: &World, c: &Tc) -> Verdicts {
+    let mut v = Verdicts::default();
+    world.reset();
+    // only the explicit 4 GiB cases run without the memory cap of hook H1
+    world.memory_cap.set(if c.huge { u64::MAX } else { evmkit::DEFAULT_MEMORY_CAP });
+    let (d, inv) = match c.kind {
+        Kind::Runtime => world.deploy(&c.code),
+        Kind::Init => world.create(&c.code, &TokenAmount::zero(), evmkit::DEFAULT_BUDGET),
+    };
+    v.messages += 1;
+    v.codes.push(inv.code.value());
+    if c.kind == Kind::Init && world.last_steps.get() >= 2 {
+        v.nontrivial = true;
+    }
+    if let Err(e) = total(&inv, "deployment") {
+        v.violation = Some(e);
+        return v;
+    }
+    let Some(d) = d else {
+        // a rejected deployment is a defined end (EIP-3541 0xEF prefix, reverting or failing
+        // init code); for generated run-time code it must be the EIP-3541 case
+        if c.kind == Kind::Runtime && c.code.first() != Some(&0xEF) {
+            v.violation = Some(format!("deployment of run-time code failed: {}", inv.tree()));
+        }
+        world.reset();
+        return v;
+    };
+    let mut acct = Account::default();
+    let code_for_ref: Option<Vec<u8>> = match c.kind {
+        Kind::Runtime => Some(c.code.clone()),
+        Kind::Init => None,
+    };
+    let lim = Limits::default();
+    let n = c.calls.len();
+    for (i, HexBytes(cd)) in c.calls.iter().enumerate() {
+        let inv = world.invoke(&d, cd);
+        v.messages += 1;
+        v.codes.push(inv.code.value());
+        if world.last_steps.get() >= 2 {
+            v.nontrivial = true;
+        }
+        if let Err(e) = total(&inv, &format!("call {i}")) {
+            v.violation = Some(e);
+            return v;
+        }
+        let got = classify(&inv);
+        if i + 1 == n
+            && let Some(why) = &c.must_fail
+            && !matches!(got, Outcome::Failure(f) if f != Fail::StepBudget)
+        {
+            v.violation = Some(format!("call {i}: expected a failure ({why}) but the actor ended with {}", got.brief()));
+            return v;
+        }
+        if c.match_ref
+            && let Some(code) = &code_for_ref
+        {
+            match refevm::execute(code, cd, &mut acct, lim).verdict {
+                Verdict::Defined(want) => {
+                    if want != got {
+                        v.violation = Some(format!("call {i}: actor {} != reference {}", got.brief(), want.brief()));
+                        return v;
+                    }
+                }
+                Verdict::Undefined(_) => {
+                    v.note = Some("reference undefined".into());
+                    break;
+                }
+            }
+        }
+    }
+    world.reset();
+    v
+}
+
+// ------------------------------------------------------------------------------ generators
+
+pub trait Gen: Sync {
+    fn name(&self) -> String;
+    fn len(&self) -> usize;
+    fn get(&self, i: usize) -> Case;
+    /// Work-distribution granularity (cases handed to a worker at a time).
+    fn chunk(&self) -> usize {
+        if self.len() > 1_000_000 { 4096 } else { 64 }
+    }
+    fn describe(&self) -> Value;
+}
+
+fn cd36() -> Vec<u8> {
+    (1u8..=36).collect()
+}
+
+/// (a) every byte string with length in `min..=max`.
+pub struct Strings {
+    kind: Kind,
+    min: usize,
+    max: usize,
+}
+
+impl Gen for Strings {
+    fn name(&self) -> String {
+        format!("c18/strings-{}-len{}..{}", if self.kind == Kind::Runtime { "runtime" } else { "init" }, self.min, self.max)
+    }
+    fn len(&self) -> usize {
+        (self.min..=self.max).map(|l| 256usize.pow(l as u32)).sum()
+    }
+    fn get(&self, mut i: usize) -> Case {
+        let mut l = self.min;
+        while i >= 256usize.pow(l as u32) {
+            i -= 256usize.pow(l as u32);
+            l += 1;
+        }
+        let mut code = vec![0u8; l];
+        for b in code.iter_mut().rev() {
+            *b = (i & 0xff) as u8;
+            i >>= 8;
+        }
+        Case::Total(Tc {
+            group: "strings".into(),
+            kind: self.kind.clone(),
+            code,
+            calls: vec![HexBytes(vec![]), HexBytes(cd36())],
+            must_fail: None,
+            match_ref: false,
+            huge: false,
+            desc: String::new(),
+        })
+    }
+    fn describe(&self) -> Value {
+        json!({"every byte string of length": [self.min, self.max], "as": format!("{:?}", self.kind), "calldatas": ["", hex::encode(cd36())]})
+    }
+}
+
+pub const HEIGHTS: [usize; 21] = [0, 1, 2, 3, 4, 5, 6, 7, 8, 9, 10, 11, 12, 13, 14, 15, 16, 17, 1022, 1023, 1024];
+
+/// (b) every opcode at boundary stack heights, three fill values.
+pub struct OpcodeHeights;
+
+impl Gen for OpcodeHeights {
+    fn name(&self) -> String {
+        "c18/opcode-x-stack-height".into()
+    }
+    fn len(&self) -> usize {
+        256 * HEIGHTS.len() * 3
+    }
+    fn get(&self, i: usize) -> Case {
+        let fill = i % 3;
+        let h = HEIGHTS[(i / 3) % HEIGHTS.len()];
+        let opcode = (i / 3 / HEIGHTS.len()) as u8;
+        let mut code = vec![];
+        for _ in 0..h {
+            match fill {
+                0 => code.push(op::PUSH0),
+                1 => code.extend_from_slice(&[op::PUSH1, 1]),
+                _ => code.extend_from_slice(&[op::PUSH0, op::NOT]),
+            }
+        }
+        code.push(opcode);
+        code.extend_from_slice(&[0u8; 33]);
+        let must_fail = match refevm::stack_io(opcode) {
+            None => Some("undefined opcode".to_string()),
+            Some(_) if opcode == op::INVALID => Some("INVALID".to_string()),
+            Some((d, _)) if h < d => Some(format!("stack underflow: {h} items, instruction takes {d}")),
+            Some((d, a)) if h - d + a > 1024 => Some(format!("stack overflow: {h} items, instruction leaves {}", h - d + a)),
+            _ => None,
+        };
+        Case::Total(Tc {
+            group: "opcode-height".into(),
+            kind: Kind::Runtime,
+            code,
+            calls: vec![HexBytes(cd36())],
+            must_fail,
+            match_ref: false,
+            huge: false,
+            desc: format!("opcode 0x{opcode:02x} at stack height {h}, fill {}", ["0", "1", "2^256-1"][fill]),
+        })
+    }
+    fn describe(&self) -> Value {
+        json!({"opcodes": "0x00..0xff", "heights": HEIGHTS, "fill_values": ["0", "1", "2^256-1"],
+               "expected_failures": "undefined opcode / fewer items than the instruction takes / more than 1024 items after it (arity table written from the Yellow Paper and EIPs, refevm::stack_io)"})
+    }
+}
+
+/// (c) PUSHn with fewer than n immediate bytes at the end of the code.
+pub struct TruncatedPush {
+    cases: Vec<Case>,
+}
+
+impl TruncatedPush {
+    pub fn new() -> Self {
+        let mut cases = vec![];
+        for kind in [Kind::Runtime, Kind::Init] {
+            for prefix in [&[][..], &[op::JUMPDEST][..], &[op::PUSH1, 0x5b, op::POP][..]] {
+                for n in 1..=32u8 {
+                    for k in 0..n {
+                        for fillb in [0x5bu8, 0xff] {
+                            let mut code = prefix.to_vec();
+                            code.push(0x5f + n);
+                            code.extend(std::iter::repeat_n(fillb, k as usize));
+                            cases.push(Case::Total(Tc {
+                                group: "truncated-push".into(),
+                                kind: kind.clone(),
+                                code,
+                                calls: vec![HexBytes(vec![]), HexBytes(cd36())],
+                                must_fail: None,
+                                match_ref: true,
+                                huge: false,
+                                desc: format!("PUSH{n} with {k} immediate bytes"),
+                            }));
+                        }
+                    }
+                }
+            }
+        }
+        TruncatedPush { cases }
+    }
+}
+
+impl Gen for TruncatedPush {
+    fn name(&self) -> String {
+        "c18/truncated-push".into()
+    }
+    fn len(&self) -> usize {
+        self.cases.len()
+    }
+    fn get(&self, i: usize) -> Case {
+        self.cases[i].clone()
+    }
+    fn describe(&self) -> Value {
+        json!({"push_widths": "1..32", "available_immediate_bytes": "0..n-1", "prefixes": 3, "fill_bytes": ["5b", "ff"], "as": ["Runtime", "Init"],
+               "oracle": "totality + outcome equal to refevm (code is implicitly followed by zeros, execution stops)"})
+    }
+}
+
+/// (d) jumps to every offset of codes whose push data contains 0x5b.
+pub struct JumpTargets {
+    cases: Vec<Case>,
+    templates: usize,
+}
+
+fn arm(a: &mut Asm, id: u8) {
+    // a genuine JUMPDEST followed by code that identifies it
+    a.op(op::JUMPDEST).push_exact(&[id]).push(0).op(op::MSTORE).push(32).push(0).op(op::RETURN);
+}
+
+impl JumpTargets {
+    pub fn new() -> Self {
+        let mut templates: Vec<Vec<u8>> = vec![];
+        {
+            let mut a = Asm::new();
+            a.push_exact(&[0x5b]).op(op::POP);
+            arm(&mut a, 1);
+            a.push_exact(&[0x5b, 0x5b]).op(op::POP);
+            arm(&mut a, 2);
+            a.push_exact(&[0x5b; 32]).op(op::POP);
+            arm(&mut a, 3);
+            templates.push(a.finish());
+        }
+        {
+            // push data that looks like PUSH opcodes: 60 60 5b -> the 5b IS an instruction;
+            // 61 60 5b -> it is data; 7f followed by 31 bytes then 5b as the last data byte
+            let mut a = Asm::new();
+            a.raw(&[0x60, 0x60]);
+            arm(&mut a, 4);
+            a.raw(&[0x61, 0x60, 0x5b]).op(op::POP);
+            arm(&mut a, 5);
+            let mut imm = [0x60u8; 32];
+            imm[31] = 0x5b;
+            a.push_exact(&imm).op(op::POP);
+            a.op(op::JUMPDEST).op(op::JUMPDEST);
+            arm(&mut a, 6);
+            templates.push(a.finish());
+        }
+        {
+            // a truncated PUSH32 at the very end whose data are JUMPDEST bytes
+            let mut a = Asm::new();
+            arm(&mut a, 7);
+            a.raw(&[0x7f, 0x5b, 0x5b, 0x5b, 0x5b]);
+            templates.push(a.finish());
+        }
+        {
+            // PUSH0 has no immediate: the byte after it is an instruction
+            let mut a = Asm::new();
+            a.op(op::PUSH0).op(op::POP).op(op::PUSH0);
+            arm(&mut a, 8);
+            a.raw(&[0x7e]).raw(&[0x5b; 31]);
+            arm(&mut a, 9);
+            templates.push(a.finish());
+        }
+        let mut cases = vec![];
+        let highs: Vec<(&str, Word)> = vec![
+            ("", w(0)),
+            ("+2^32", two_pow(32)),
+            ("+2^64", two_pow(64)),
+            ("+2^255", two_pow(255)),
+        ];
+        for (ti, t) in templates.iter().enumerate() {
+            for conditional in [false, true] {
+                // prefix: [PUSH1 1] PUSH32 <dest> JUMP|JUMPI  -> 34 or 36 bytes
+                let plen = if conditional { 36 } else { 34 };
+                for o in 0..=(plen + t.len() + 1) {
+                    for (hn, hv) in &highs {
+                        let dest = w(o as u64) + hv;
+                        let mut code = vec![];
+                        if conditional {
+                            code.extend_from_slice(&[op::PUSH1, 1]);
+                        }
+                        code.push(op::PUSH32);
+                        code.extend_from_slice(&refevm::word_to_be(&dest));
+                        code.push(if conditional { op::JUMPI } else { op::JUMP });
+                        assert_eq!(code.len(), plen);
+                        code.extend_from_slice(t);
+                        let valid = refevm::jumpdests(&code);
+                        let lands_ok = hv.is_zero() && o < code.len() && valid[o];
+                        cases.push(Case::Total(Tc {
+                            group: "jump-targets".into(),
+                            kind: Kind::Runtime,
+                            code,
+                            calls: vec![HexBytes(vec![])],
+                            must_fail: if lands_ok { None } else { Some("jump destination is not a JUMPDEST instruction outside push data".into()) },
+                            match_ref: true,
+                            huge: false,
+                            desc: format!("template {ti} {} to offset {o}{hn}", if conditional { "JUMPI" } else { "JUMP" }),
+                        }));
+                    }
+                }
+            }
+        }
+        JumpTargets { cases, templates: templates.len() }
+    }
+}
+
+impl Gen for JumpTargets {
+    fn name(&self) -> String {
+        "c18/jump-targets".into()
+    }
+    fn len(&self) -> usize {
+        self.cases.len()
+    }
+    fn get(&self, i: usize) -> Case {
+        self.cases[i].clone()
+    }
+    fn describe(&self) -> Value {
+        json!({"templates": self.templates, "destinations": "every offset 0..=len+1 of the whole program, each also with 2^32, 2^64, 2^255 added", "via": ["JUMP", "JUMPI"],
+               "oracle": "totality + must fail unless refevm's jump-destination analysis accepts the offset + outcome equal to refevm"})
+    }
+}
+
+/// (e) memory instructions with operands at the 32-bit boundary.
+pub struct MemoryEdges {
+    cases: Vec<Case>,
+    /// cases that would allocate ~4 GiB of EVM memory and are not run (see `HugeMemory`)
+    huge_skipped: usize,
+}
+
+/// The few ~4 GiB cases that are run (thorough tier only, concurrently with everything else):
+/// with the framework's debug-assertion profile one such allocation costs minutes of CPU.
+pub struct HugeMemory {
+    cases: Vec<Case>,
+}
+
+pub fn memory_edge_values() -> Vec<Word> {
+    vec![w(0), w(1), two_pow(32) - w(33), two_pow(32) - w(32), two_pow(32) - w(1), two_pow(32), two_pow(64), max_word()]
+}
+
+impl MemoryEdges {
+    pub fn new() -> (MemoryEdges, HugeMemory) {
+        let thorough = true;
+        let vals = memory_edge_values();
+        let mut cases = vec![];
+        let huge_cases = std::cell::Cell::new(0usize);
+        let tail = |a: &mut Asm| {
+            a.op(op::MSIZE).push(0).op(op::MSTORE).push(32).push(0).op(op::RETURN);
+        };
+        // regions: list of (offset, size) touched; returns (must_fail, huge)
+        let judge = |regions: &[(Word, Word)]| -> (Option<String>, bool) {
+            let mut huge = false;
+            let mut fail = None;
+            for (o, s) in regions {
+                if s.is_zero() {
+                    continue;
+                }
+                let end = o + s;
+                if end > two_pow(32) {
+                    fail = Some(format!("memory range [{o:x}, +{s:x}) ends beyond 2^32"));
+                } else if end > two_pow(28) {
+                    huge = true;
+                }
+            }
+            // (an accepted range may be grown before another range of the same instruction is
+            // rejected, so `huge` does not depend on `fail`)
+            (fail, huge)
+        };
+        let add = |name: &str, code: Vec<u8>, regions: Vec<(Word, Word)>, match_ref: bool, heavy: bool, cases: &mut Vec<Case>| {
+            let (must_fail, huge) = judge(&regions);
+            // cases that both allocate ~4 GiB and then hash / copy / serialise it are kept for
+            // the thorough tier
+            if huge && heavy && !thorough {
+                return;
+            }
+            if huge {
+                huge_cases.set(huge_cases.get() + 1);
+            }
+            cases.push(Case::Total(Tc {
+                group: "memory-edges".into(),
+                kind: Kind::Runtime,
+                code,
+                calls: vec![HexBytes(cd36())],
+                must_fail,
+                match_ref,
+                huge,
+                desc: format!("{name} regions {:?}", regions.iter().map(|(o, s)| format!("[0x{o:x},+0x{s:x})")).collect::<Vec<_>>()),
+            }));
+        };
+        for o in &vals {
+            let mut a = Asm::new();
+            a.push_word(o).op(op::MLOAD).op(op::POP);
+            tail(&mut a);
+            add("MLOAD", a.finish(), vec![(o.clone(), w(32))], true, false, &mut cases);
+            let mut a = Asm::new();
+            a.push(0xab).push_word(o).op(op::MSTORE);
+            tail(&mut a);
+            add("MSTORE", a.finish(), vec![(o.clone(), w(32))], true, false, &mut cases);
+            let mut a = Asm::new();
+            a.push(0xab).push_word(o).op(op::MSTORE8);
+            tail(&mut a);
+            add("MSTORE8", a.finish(), vec![(o.clone(), w(1))], true, false, &mut cases);
+        }
+        for o in &vals {
+            for s in &vals {
+                let two: [(&str, u8, bool, bool); 5] = [
+                    ("KECCAK256", op::KECCAK256, true, true),
+                    ("RETURN", op::RETURN, true, true),
+                    ("REVERT", op::REVERT, true, true),
+                    ("LOG0", op::LOG0, false, true),
+                    ("CREATE", op::CREATE, false, true),
+                ];
+                for (name, opc, in_ref, heavy) in two {
+                    let mut a = Asm::new();
+                    a.push_word(s).push_word(o);
+                    if opc == op::CREATE {
+                        a.push(0);
+                    }
+                    a.op(opc);
+                    if opc == op::KECCAK256 || opc == op::CREATE {
+                        a.op(op::POP);
+                    }
+                    tail(&mut a);
+                    add(name, a.finish(), vec![(o.clone(), s.clone())], in_ref, heavy, &mut cases);
+                }
+                // copies into memory: (dest = o, src = 0 and src = 2^256-1, size = s)
+                for (name, opc) in [("CALLDATACOPY", op::CALLDATACOPY), ("CODECOPY", op::CODECOPY)] {
+                    for src in [w(0), max_word()] {
+                        let mut a = Asm::new();
+                        a.push_word(s).push_word(&src).push_word(o).op(opc);
+                        tail(&mut a);
+                        add(name, a.finish(), vec![(o.clone(), s.clone())], true, false, &mut cases);
+                    }
+                }
+                {
+                    // RETURNDATACOPY with an empty buffer: any size > 0 is out of bounds
+                    let mut a = Asm::new();
+                    a.push_word(s).push(0).push_word(o).op(op::RETURNDATACOPY);
+                    tail(&mut a);
+                    let (code, regions) = (a.finish(), vec![(o.clone(), s.clone())]);
+                    let (mf, huge) = judge(&regions);
+                    if !(huge && !thorough) {
+                        if huge {
+                            huge_cases.set(huge_cases.get() + 1);
+                        }
+                        cases.push(Case::Total(Tc {
+                            group: "memory-edges".into(),
+                            kind: Kind::Runtime,
+                            code,
+                            calls: vec![HexBytes(cd36())],
+                            must_fail: if !s.is_zero() { Some(mf.unwrap_or_else(|| "RETURNDATACOPY beyond the (empty) return-data buffer".into())) } else { None },
+                            match_ref: true,
+                            huge,
+                            desc: format!("RETURNDATACOPY dest 0x{o:x} size 0x{s:x}"),
+                        }));
+                    }
+                }
+                {
+                    // EXTCODECOPY(self, dest, src, size)
+                    let mut a = Asm::new();
+                    a.push_word(s).push(0).push_word(o).op(op::ADDRESS).op(op::EXTCODECOPY);
+                    tail(&mut a);
+                    add("EXTCODECOPY", a.finish(), vec![(o.clone(), s.clone())], false, false, &mut cases);
+                }
+                {
+                    // CALL to a non-existent address with (in_off, in_size) = (o, s), then with the output region
+                    for output in [false, true] {
+                        let mut a = Asm::new();
+                        if output {
+                            a.push_word(s).push_word(o).push(0).push(0);
+                        } else {
+                            a.push(0).push(0).push_word(s).push_word(o);
+                        }
+                        a.push(0).push(0xdead_beef).op(op::GAS).op(op::CALL).op(op::POP);
+                        tail(&mut a);
+                        // an output region is only touched when there is return data to copy:
+                        // the property promises nothing there, so only input regions are judged
+                        let regions = if output { vec![] } else { vec![(o.clone(), s.clone())] };
+                        let heavy = true;
+                        let (_, huge_in) = judge(&[(o.clone(), s.clone())]);
+                        if output && huge_in && !thorough {
+                            continue;
+                        }
+                        let before = cases.len();
+                        add(if output { "CALL(output region)" } else { "CALL(input region)" }, a.finish(), regions, false, heavy, &mut cases);
+                        if output
+                            && huge_in
+                            && cases.len() > before
+                            && let Some(Case::Total(tc)) = cases.last_mut()
+                        {
+                            tc.huge = true;
+                        }
+                    }
+                }
+            }
+        }
+        // MCOPY(dst, src, len) over the full cube
+        for d in &vals {
+            for s in &vals {
+                for n in &vals {
+                    let mut a = Asm::new();
+                    a.push_word(n).push_word(s).push_word(d).op(op::MCOPY);
+                    tail(&mut a);
+                    add("MCOPY", a.finish(), vec![(s.clone(), n.clone()), (d.clone(), n.clone())], true, true, &mut cases);
+                }
+            }
+        }
+        let _ = huge_cases.get();
+        let is_huge = |c: &Case| matches!(c, Case::Total(tc) if tc.huge);
+        let huge_all: Vec<Case> = cases.iter().filter(|c| is_huge(c)).cloned().collect();
+        let normal: Vec<Case> = cases.into_iter().filter(|c| !is_huge(c)).collect();
+        let m32 = two_pow(32);
+        let wanted = [
+            format!("MLOAD regions [\"[0x{:x},+0x20)\"]", &m32 - w(33)),
+            format!("MSTORE8 regions [\"[0x{:x},+0x1)\"]", &m32 - w(32)),
+            format!("CODECOPY regions [\"[0x0,+0x{:x})\"]", &m32 - w(1)),
+        ];
+        let mut chosen = vec![];
+        for wd in &wanted {
+            let c = huge_all.iter().find(|c| matches!(c, Case::Total(tc) if &tc.desc == wd)).unwrap_or_else(|| panic!("huge case {wd} not generated"));
+            chosen.push(c.clone());
+        }
+        (MemoryEdges { cases: normal, huge_skipped: huge_all.len() - chosen.len() }, HugeMemory { cases: chosen })
+    }
+}
+
+impl Gen for MemoryEdges {
+    fn name(&self) -> String {
+        "c18/memory-edges".into()
+    }
+    fn len(&self) -> usize {
+        self.cases.len()
+    }
+    fn get(&self, i: usize) -> Case {
+        self.cases[i].clone()
+    }
+    fn describe(&self) -> Value {
+        json!({"operand_values": memory_edge_values().iter().map(|x| format!("0x{x:x}")).collect::<Vec<_>>(),
+               "instructions": ["MLOAD", "MSTORE", "MSTORE8", "KECCAK256", "RETURN", "REVERT", "LOG0", "CREATE", "CALLDATACOPY", "CODECOPY", "RETURNDATACOPY", "EXTCODECOPY", "CALL in/out", "MCOPY"],
+               "cases_not_run_because_they_allocate_about_4GiB": self.huge_skipped,
+               "oracle": "totality; a non-empty range ending beyond 2^32 must fail; ranges ending at or below 2^32 - 1 are not judged beyond totality (and agreement with refevm below 4 MiB)"})
+    }
+}
+
+impl Gen for HugeMemory {
+    fn name(&self) -> String {
+        "c18/memory-edges-4GiB".into()
+    }
+    fn len(&self) -> usize {
+        self.cases.len()
+    }
+    fn get(&self, i: usize) -> Case {
+        self.cases[i].clone()
+    }
+    fn chunk(&self) -> usize {
+        1
+    }
+    fn describe(&self) -> Value {
+        json!({"cases": self.cases.iter().map(|c| match c { Case::Total(tc) => tc.desc.clone(), _ => String::new() }).collect::<Vec<_>>(),
+               "note": "largest accepted ranges (end = 2^32 - 1 resp. 2^32 - 31): memory really grows to 4 GiB; oracle: totality"})
+    }
+}
+
+// ------------------------------------------------------------------------------ read-only scripts
+
+#[derive(Clone, Copy, Debug, Serialize, Deserialize, PartialEq, Eq)]
+pub enum RoOp {
+    Sstore,
+    SstoreReadBack,
+    Tstore,
+    TstoreReadBack,
+    Log(u8),
+    CallValue,
+    Create,
+    Create2,
+    SelfDestruct,
+}
+
+#[derive(Clone, Copy, Debug, Serialize, Deserialize, PartialEq, Eq)]
+pub enum Hop {
+    Call,
+    Delegate,
+}
+
+#[derive(Clone, Debug, Serialize, Deserialize)]
+pub struct Script {
+    pub op: RoOp,
+    /// Frames between the STATICCALL and the frame executing `op` (depth = hops.len() + 1).
+    pub hops: Vec<Hop>,
+    /// An additional ordinary CALL frame above the contract that issues the STATICCALL.
+    pub outer_call: bool,
+    /// Control experiment: CALL instead of STATICCALL (the effect must then be visible).
+    pub control: bool,
+}
+
+const MARK: u8 = 0xA0;
+const WRITTEN: u8 = 0x77;
+
+fn target_code(o: RoOp, beneficiary: &[u8; 20]) -> Vec<u8> {
+    let mut a = Asm::new();
+    let report_top_or_mark = |a: &mut Asm| {
+        // word on the stack -> OR with MARK -> return it
+        a.push(MARK as u64).op(op::OR).push(0).op(op::MSTORE).push(32).push(0).op(op::RETURN);
+    };
+    match o {
+        RoOp::Sstore | RoOp::Tstore => {
+            a.push(WRITTEN as u64).push(5).op(if o == RoOp::Sstore { op::SSTORE } else { op::TSTORE });
+            a.push(1);
+            report_top_or_mark(&mut a);
+        }
+        RoOp::SstoreReadBack | RoOp::TstoreReadBack => {
+            let (st, ld) = if o == RoOp::SstoreReadBack { (op::SSTORE, op::SLOAD) } else { (op::TSTORE, op::TLOAD) };
+            a.push(WRITTEN as u64).push(5).op(st).push(5).op(ld);
+            a.push(0).op(op::MSTORE).push(32).push(0).op(op::REVERT);
+        }
+        RoOp::Log(n) => {
+            a.push(0xfeed).push(0).op(op::MSTORE);
+            for t in 0..n {
+                a.push(0x100 + t as u64);
+            }
+            a.push(4).push(28).op(0xa0 + n);
+            a.push(1);
+            report_top_or_mark(&mut a);
+        }
+        RoOp::CallValue => {
+            a.push(0).push(0).push(0).push(0).push(1).push_exact(beneficiary).op(op::GAS).op(op::CALL);
+            report_top_or_mark(&mut a);
+        }
+        RoOp::Create => {
+            a.push(0).push(0).push(0).op(op::CREATE).op(op::ISZERO).op(op::ISZERO);
+            report_top_or_mark(&mut a);
+        }
+        RoOp::Create2 => {
+            a.push(0x5a17).push(0).push(0).push(0).op(op::CREATE2).op(op::ISZERO).op(op::ISZERO);
+            report_top_or_mark(&mut a);
+        }
+        RoOp::SelfDestruct => {
+            a.push_exact(beneficiary).op(op::SELFDESTRUCT);
+        }
+    }
+    a.finish()
+}
+
+/// A frame that calls `next` with `kind` and returns `flag ‖ return data of the callee`.
+fn forwarder(kind: u8, next: &[u8; 20]) -> Vec<u8> {
+    let mut a = Asm::new();
+    a.push(0).push(0).push(0).push(0);
+    if kind == op::CALL {
+        a.push(0);
+    }
+    a.push_exact(next).op(op::GAS).op(kind);
+    a.push(0).op(op::MSTORE);
+    a.op(op::RETURNDATASIZE).push(0).push(32).op(op::RETURNDATACOPY);
+    a.op(op::RETURNDATASIZE).push(32).op(op::ADD).push(0).op(op::RETURN);
+    a.finish()
+}
+
+fn world_fingerprint(world: &World) -> BTreeMap<u64, (String, String, String, u64)> {
+    world
+        .vm
+        .actor_states()
+        .into_iter()
+        .map(|(id, a)| {
+            let seq = if id == world.user { 0 } else { a.sequence };
+            (id, (a.code.to_string(), a.state.to_string(), a.balance.atto().to_string(), seq))
+        })
+        .collect()
+}
+
+pub fn run_script(world: &World, s: &Script) -> Verdicts {
+    let mut v = Verdicts::default();
+    world.reset();
+    let fund = TokenAmount::from_atto(1000);
+    let mut beneficiary = [0u8; 20];
+    beneficiary[0] = 0xff;
+    beneficiary[12..].copy_from_slice(&world.user.to_be_bytes());
+    let deploy = |code: &[u8], what: &str| -> Result<Deployed, String> {
+        let (d, inv) = world.deploy_funded(code, &fund);
+        d.ok_or_else(|| format!("SETUP-FAILED deploying {what}: {}", inv.tree()))
+    };
+    let chain = (|| -> Result<(Deployed, usize), String> {
+        let mut cur = deploy(&target_code(s.op, &beneficiary), "target")?;
+        let mut forwarders = 0;
+        for h in s.hops.iter().rev() {
+            let k = if *h == Hop::Call { op::CALL } else { op::DELEGATECALL };
+            cur = deploy(&forwarder(k, &cur.eth), "intermediate frame")?;
+            forwarders += 1;
+        }
+        cur = deploy(&forwarder(if s.control { op::CALL } else { op::STATICCALL }, &cur.eth), "static caller")?;
+        forwarders += 1;
+        if s.outer_call {
+            cur = deploy(&forwarder(op::CALL, &cur.eth), "outer frame")?;
+            forwarders += 1;
+        }
+        Ok((cur, forwarders))
+    })();
+    let (top, forwarders) = match chain {
+        Ok(x) => x,
+        Err(e) => {
+            v.violation = Some(e);
+            return v;
+        }
+    };
+    let before = world_fingerprint(world);
+    let inv = world.invoke(&top, &[]);
+    v.messages = 1;
+    v.codes.push(inv.code.value());
+    v.nontrivial = world.last_steps.get() >= 2;
+    if let Err(e) = total(&inv, "script") {
+        v.violation = Some(e);
+        return v;
+    }
+    let after = world_fingerprint(world);
+    let events = inv.effective_events().len();
+    let out = classify(&inv);
+    let Outcome::Return(data) = &out else {
+        v.violation = Some(format!("the top-level frame of the script did not return: {}\n{}", out.brief(), inv.tree()));
+        return v;
+    };
+    if data.len() < 32 * forwarders {
+        v.violation = Some(format!("script returned {} bytes, expected at least {}", data.len(), 32 * forwarders));
+        return v;
+    }
+    let flags: Vec<bool> = (0..forwarders).map(|i| data[32 * i..32 * i + 32].iter().any(|b| *b != 0)).collect();
+    let tdata = &data[32 * forwarders..];
+    let target_flag = *flags.last().unwrap();
+    let tword = if tdata.len() >= 32 { Some(tdata[31]) } else { None };
+    let changed: Vec<u64> = {
+        let mut ids: Vec<u64> = before.keys().chain(after.keys()).cloned().collect();
+        ids.sort();
+        ids.dedup();
+        ids.into_iter().filter(|id| before.get(id) != after.get(id)).collect()
+    };
+    let static_seen = inv.flat().iter().any(|i| i.read_only);
+    if s.control {
+        // the same tree without STATICCALL must show the effect, otherwise the script is vacuous
+        let effect = !changed.is_empty() || events > 0;
+        if !effect || !target_flag {
+            v.violation = Some(format!(
+                "MACHINERY: control run of {:?} shows no effect (changed actors {:?}, events {events}, target flag {target_flag}): {}",
+                s, changed, inv.tree()
+            ));
+        }
+        return v;
+    }
+    if !static_seen {
+        v.violation = Some(format!("MACHINERY: no read-only invocation in the trace of {:?}", s));
+        return v;
+    }
+    if !changed.is_empty() {
+        v.violation = Some(format!("state changed beneath a STATICCALL: actors {:?} differ after the message ({:?})\n{}", changed, s, inv.tree()));
+        return v;
+    }
+    if events > 0 {
+        v.violation = Some(format!("{events} event(s) took effect beneath a STATICCALL ({:?})\n{}", s, inv.tree()));
+        return v;
+    }
+    // the frame that attempted the change must be observed as failed by its caller
+    let observed_failure = match s.op {
+        RoOp::SstoreReadBack | RoOp::TstoreReadBack => {
+            // the frame reverts by construction; what matters is that the write was not readable
+            if tword == Some(WRITTEN) {
+                v.violation = Some(format!("a write made in a static context was read back inside the frame ({:?})\n{}", s, inv.tree()));
+                return v;
+            }
+            !target_flag
+        }
+        RoOp::CallValue | RoOp::Create | RoOp::Create2 => !target_flag || tword == Some(MARK),
+        _ => !target_flag,
+    };
+    if !observed_failure {
+        v.violation = Some(format!(
+            "the frame executing {:?} beneath a STATICCALL was not observed as failed (flags {:?}, data {})\n{}",
+            s.op,
+            flags,
+            hex::encode(tdata),
+            inv.tree()
+        ));
+    }
+    world.reset();
+    v
+}
+
+pub struct ReadOnlyScripts {
+    scripts: Vec<Script>,
+    max_depth: usize,
+}
+
+impl ReadOnlyScripts {
+    pub fn new(max_depth: usize) -> Self {
+        let mut ops = vec![RoOp::Sstore, RoOp::SstoreReadBack, RoOp::Tstore, RoOp::TstoreReadBack];
+        for n in 0..=4 {
+            ops.push(RoOp::Log(n));
+        }
+        ops.extend([RoOp::CallValue, RoOp::Create, RoOp::Create2, RoOp::SelfDestruct]);
+        let mut shapes: Vec<Vec<Hop>> = vec![vec![]];
+        let mut last: Vec<Vec<Hop>> = vec![vec![]];
+        for _ in 1..max_depth {
+            let mut next = vec![];
+            for s in &last {
+                for h in [Hop::Call, Hop::Delegate] {
+                    let mut t = s.clone();
+                    t.push(h);
+                    next.push(t);
+                }
+            }
+            shapes.extend(next.iter().cloned());
+            last = next;
+        }
+        let mut scripts = vec![];
+        for control in [true, false] {
+            for o in &ops {
+                for hops in &shapes {
+                    for outer_call in [false, true] {
+                        if control && matches!(o, RoOp::SstoreReadBack | RoOp::TstoreReadBack) {
+                            continue; // these frames revert by construction: no effect to show
+                        }
+                        scripts.push(Script { op: *o, hops: hops.clone(), outer_call, control });
+                    }
+                }
+            }
+        }
+        ReadOnlyScripts { scripts, max_depth }
+    }
+}
+
+impl Gen for ReadOnlyScripts {
+    fn name(&self) -> String {
+        "c18/read-only-scripts".into()
+    }
+    fn len(&self) -> usize {
+        self.scripts.len()
+    }
+    fn get(&self, i: usize) -> Case {
+        Case::ReadOnly(self.scripts[i].clone())
+    }
+    fn describe(&self) -> Value {
+        json!({"operations": ["SSTORE", "SSTORE+SLOAD read-back", "TSTORE", "TSTORE+TLOAD read-back", "LOG0..LOG4", "CALL with value 1", "CREATE", "CREATE2", "SELFDESTRUCT"],
+               "depth_beneath_staticcall": format!("1..{}", self.max_depth), "frames_in_between": ["CALL", "DELEGATECALL"], "outer_call_frame": [false, true],
+               "control_runs": "every script is also run with CALL in place of STATICCALL and must then show the effect (non-vacuity; a failure there is a machinery error)",
+               "oracle": "actor table (code, state CID, balance, nonce) identical before/after, no effective event, the attempting frame observed as failed"})
+    }
+}
+
+// ------------------------------------------------------------------------------ engine
+
+#[derive(Default)]
+pub struct Stats {
+    pub name: String,
+    pub cases: u64,
+    pub messages: u64,
+    pub must_fail_checked: u64,
+    pub ref_compared: u64,
+    pub codes: BTreeMap<u32, u64>,
+    pub nontrivial_keys: Vec<[u8; 16]>,
+    pub violations: Vec<(usize, Case, String)>,
+    pub samples: Vec<Value>,
+    pub capped: bool,
+    pub wall_s: f64,
+    pub describe: Value,
+}
+
+pub fn run_case(world: &World, c: &Case) -> Verdicts {
+    match c {
+        Case::Total(tc) => run_total(world, tc),
+        Case::ReadOnly(s) => run_script(world, s),
+    }
+}
+
+fn case_key(c: &Case) -> [u8; 16] {
+    match c {
+        Case::Total(tc) => mcx::hash_key(&[&[tc.kind.clone() as u8], &tc.code]),
+        Case::ReadOnly(s) => mcx::hash_key(&[b"ro", serde_json::to_string(s).unwrap().as_bytes()]),
+    }
+}
+
+pub fn run_gen(g: &dyn Gen, threads: usize, deadline: Option<Instant>) -> Stats {
+    let t0 = Instant::now();
+    let n = g.len();
+    let next = AtomicUsize::new(0);
+    let stop = AtomicBool::new(false);
+    // first index that need not be run any more: end of the first chunk containing a violation
+    let limit = AtomicUsize::new(n);
+    let chunk = g.chunk();
+    let sample_at: Vec<usize> = (0..4).map(|k| n.saturating_sub(1) * (k + 1) / 4).collect();
+    let parts = evmkit::parallel(threads, |_, world| {
+        let mut st = Stats::default();
+        loop {
+            if stop.load(Ordering::Relaxed) {
+                break;
+            }
+            if let Some(d) = deadline
+                && Instant::now() > d
+            {
+                stop.store(true, Ordering::Relaxed);
+                break;
+            }
+            let lo = next.fetch_add(chunk, Ordering::Relaxed);
+            if lo >= n.min(limit.load(Ordering::Relaxed)) {
+                break;
+            }
+            for i in lo..(lo + chunk).min(n) {
+                if i >= limit.load(Ordering::Relaxed) {
+                    break;
+                }
+                let c = g.get(i);
+                let r = run_case(world, &c);
+                st.cases += 1;
+                st.messages += r.messages;
+                for code in &r.codes {
+                    *st.codes.entry(*code).or_default() += 1;
+                }
+                if let Case::Total(tc) = &c {
+                    if tc.must_fail.is_some() {
+                        st.must_fail_checked += 1;
+                    }
+                    if tc.match_ref && r.note.is_none() {
+                        st.ref_compared += 1;
+                    }
+                }
+                if let Some(mut v) = r.violation {
+                    // replay before reporting (the ~4 GiB cases are too expensive to repeat)
+                    let is_huge = matches!(&c, Case::Total(tc) if tc.huge);
+                    if !is_huge && !v.starts_with("MACHINERY") && !v.starts_with("SETUP-FAILED") && run_case(world, &c).violation.is_none() {
+                        v = format!("MACHINERY: not reproducible on immediate re-execution: {v}");
+                    }
+                    limit.fetch_min((lo + chunk).min(n), Ordering::Relaxed);
+                    if st.violations.len() < 5 {
+                        st.violations.push((i, c, v));
+                    }
+                    continue;
+                }
+                if r.nontrivial {
+                    st.nontrivial_keys.push(case_key(&c));
+                }
+                if sample_at.contains(&i) {
+                    st.samples.push(json!({"generator": g.name(), "index": i, "case": serde_json::to_value(&c).unwrap(), "exit_codes": r.codes}));
+                }
+            }
+        }
+        st
+    });
+    let mut out = Stats { name: g.name(), describe: g.describe(), ..Default::default() };
+    for p in parts {
+        out.cases += p.cases;
+        out.messages += p.messages;
+        out.must_fail_checked += p.must_fail_checked;
+        out.ref_compared += p.ref_compared;
+        for (k, v) in p.codes {
+            *out.codes.entry(k).or_default() += v;
+        }
+        out.nontrivial_keys.extend(p.nontrivial_keys);
+        out.violations.extend(p.violations);
+        out.samples.extend(p.samples);
+    }
+    // deterministic report: everything below the final limit was run completely
+    let final_limit = limit.load(Ordering::Relaxed);
+    out.violations.retain(|v| v.0 < final_limit);
+    out.violations.sort_by_key(|v| v.0);
+    out.violations.truncate(3);
+    out.samples.sort_by_key(|s| s["index"].as_u64());
+    out.capped = stop.load(Ordering::Relaxed) || (out.cases as usize) < n;
+    out.wall_s = t0.elapsed().as_secs_f64();
+    out
+}
+
+pub fn run(tier: &str) -> ! {
+    let thorough = tier == "thorough";
+    let t0 = Instant::now();
+    if let Err(e) = evmkit::self_test() {
+        eprintln!("C18: machinery self-test failed: {e}");
+        std::process::exit(2);
+    }
+    let threads = evmkit::threads();
+    let cap_s: f64 = if thorough { 1300.0 } else { 26.0 };
+    let deadline = Some(t0 + std::time::Duration::from_secs_f64(cap_s));
+    let mut run = mcx::evidence::Run::new("C18", tier, "exploration");
+    run.assumptions = vec![
+        "mcvm mirrors the FVM message semantics (value transfer, rollback, read-only propagation, panic -> USR_ASSERTION_FAILED)".into(),
+        "hook H1 bounds every message to 200000 interpreter steps and every EVM memory to 64 MiB (except the three explicit 4 GiB cases of the thorough tier); its exit code is the 'out of gas' outcome of this bench".into(),
+        "crash-like exit codes: USR_ASSERTION_FAILED, SYS_ASSERTION_FAILED (except mcvm's record of a failed send syscall), USR_ILLEGAL_STATE, USR_SERIALIZATION, SYS_MISSING_RETURN, SYS_ILLEGAL_INSTRUCTION, SYS_ILLEGAL_EXIT_CODE; every other code is a defined end".into(),
+        "native 64-bit build: 32-bit-only arithmetic of the Wasm target (usize = u32) is not exercised".into(),
+    ];
+    let g_ro = ReadOnlyScripts::new(if thorough { 4 } else { 3 });
+    let g_heights = OpcodeHeights;
+    let g_trunc = TruncatedPush::new();
+    let g_jumps = JumpTargets::new();
+    let (g_mem, g_huge) = MemoryEdges::new();
+    let g_init = Strings { kind: Kind::Init, min: 0, max: 2 };
+    let g_rt = Strings { kind: Kind::Runtime, min: 0, max: 2 };
+    let g_rt3 = Strings { kind: Kind::Runtime, min: 3, max: 3 };
+    let mut gens: Vec<&dyn Gen> = vec![&g_ro, &g_trunc, &g_jumps, &g_heights, &g_mem, &g_init, &g_rt];
+    if thorough {
+        gens.push(&g_rt3);
+    }
+    let mut parts = vec![];
+    let mut messages = 0u64;
+    let mut keys: Vec<[u8; 16]> = vec![];
+    let mut samples = vec![];
+    let mut codes: BTreeMap<u32, u64> = BTreeMap::new();
+    let mut complete = true;
+    let mut all_stats: Vec<Stats> = vec![];
+    std::thread::scope(|sc| {
+        // the ~4 GiB cases run beside everything else (thorough tier only)
+        let huge = if thorough {
+            let g = &g_huge;
+            Some(sc.spawn(move || run_gen(g, g.len(), None)))
+        } else {
+            None
+        };
+        let main_threads = if thorough { threads.saturating_sub(g_huge.len()).max(1) } else { threads };
+        for g in &gens {
+            let s = run_gen(*g, main_threads, deadline);
+            eprintln!(
+                "[C18] {}: cases={} messages={} must-fail={} ref-compared={} violations={} complete={} wall={:.1}s codes={:?}",
+                s.name, s.cases, s.messages, s.must_fail_checked, s.ref_compared, s.violations.len(), !s.capped, s.wall_s, s.codes
+            );
+            all_stats.push(s);
+        }
+        if let Some(h) = huge {
+            let s = h.join().expect("huge-memory worker panicked (machinery error)");
+            eprintln!("[C18] {}: cases={} messages={} violations={} wall={:.1}s codes={:?}", s.name, s.cases, s.messages, s.violations.len(), s.wall_s, s.codes);
+            all_stats.push(s);
+        }
+    });
+    for mut s in all_stats {
+        messages += s.messages;
+        for (k, v) in &s.codes {
+            *codes.entry(*k).or_default() += v;
+        }
+        for (_, c, msg) in &s.violations {
+            let machinery = msg.starts_with("MACHINERY") || msg.starts_with("SETUP-FAILED");
+            if machinery {
+                eprintln!("C18: {msg}");
+                std::process::exit(2);
+            }
+            run.extra_violations.push(ViolationReport {
+                scenario: s.name.clone(),
+                base: "genesis+account".into(),
+                path: vec![PathStep { action: serde_json::to_value(c).unwrap(), faults: vec![] }],
+                message: msg.clone(),
+            });
+        }
+        let mut ks = std::mem::take(&mut s.nontrivial_keys);
+        ks.sort();
+        ks.dedup();
+        samples.extend(s.samples.iter().take(2).cloned());
+        complete &= !s.capped;
+        parts.push(json!({
+            "generator": s.name, "cases": s.cases, "messages": s.messages, "expected_failures_checked": s.must_fail_checked,
+            "outcomes_compared_with_refevm": s.ref_compared, "distinct_nontrivial": ks.len(),
+            "exit_codes": s.codes.iter().map(|(k, v)| (k.to_string(), *v)).collect::<BTreeMap<_, _>>(),
+            "complete": !s.capped, "wall_s": s.wall_s, "describe": s.describe,
+        }));
+        keys.extend(ks);
+    }
+    keys.sort();
+    keys.dedup();
+    let cx = &mut run.coverage_extra;
+    cx.insert("evaluations".into(), json!(messages));
+    cx.insert("distinct_nontrivial".into(), json!(keys.len()));
+    cx.insert("rule".into(), json!(
+        "evaluations = top-level messages (deployments and calls) judged by the totality oracle. Generators enumerate their finite spaces completely (see generators[].describe). \
+         A case is non-trivial when hook H1 measured >= 2 interpreter steps in at least one of its messages (i.e. the code got past its first instruction); distinct = distinct (kind, code bytes) or distinct read-only script, de-duplicated across generators."));
+    cx.insert("samples".into(), Value::Array(samples));
+    cx.insert("generators".into(), Value::Array(parts));
+    cx.insert("exit_codes".into(), json!(codes.iter().map(|(k, v)| (k.to_string(), *v)).collect::<BTreeMap<_, _>>()));
+    cx.insert("exhaustive".into(), json!(complete && run.extra_violations.is_empty()));
+    cx.insert("threads".into(), json!(threads));
+    cx.insert("wall_cap_s".into(), json!(cap_s));
+    // the verdict line printed by `finish` takes `exhaustive` from the reports
+    run.reports.push(mcx::Report { scenario: "c18/enumeration".into(), exhaustive: complete, ..Default::default() });
+    run.finish()
 }
 
 /// Replay a violation file written by this check; `v` is the parsed replay JSON.
-pub fn replay(_v: &serde_json::Value) -> ! {
-    eprintln!("C18: replay not implemented");
-    std::process::exit(2)
+pub fn replay(v: &Value) -> ! {
+    let Some(c) = v["path"].get(0).and_then(|s| serde_json::from_value::<Case>(s["action"].clone()).ok()) else {
+        eprintln!("C18 replay: malformed replay file");
+        std::process::exit(2)
+    };
+    let store = mcvm::Store::new();
+    let world = World::new(&store);
+    let r = run_case(&world, &c);
+    match r.violation {
+        Some(m) if m.starts_with("MACHINERY") || m.starts_with("SETUP-FAILED") => {
+            eprintln!("C18 replay: {m}");
+            std::process::exit(2)
+        }
+        Some(m) => {
+            println!("REPRODUCED property=C18 {m}");
+            std::process::exit(1)
+        }
+        None => {
+            println!("NOT-REPRODUCED: the recorded case passes on this tree");
+            std::process::exit(0)
+        }
+    }
 }
